@@ -56,6 +56,41 @@ def check_input(p, src, kind, col):
                       bucket=b)
 
 
+# ---- bytes-like targets (C02: "bytes-like T is carried verbatim", so they are supported T) -----------------
+BYTESLIKE_INPUTS = ["b'ab'", "bytearray(b'ab')", "memoryview(b'ab')", "memoryview(bytearray(b'ab'))", "'ab'", "'é'", "5", "1.5", "None",
+                    "[1, 2]", "b''", "bytearray()", "True", "{'a': 1}", "b'[1]'", "'null'"]
+
+
+def check_byteslike(col):
+    import typing
+
+    for tname, t in (("bytes", bytes), ("bytearray", bytearray), ("memoryview", memoryview)):
+        shapes = {
+            tname: (t, lambda x: x, lambda r: [r]),
+            f"list[{tname}]": (list[t], lambda x: [x, x], lambda r: list(r) if type(r) is list else None),
+            f"dict[str, {tname}]": (dict[str, t], lambda x: {"k": x}, lambda r: list(r.values()) if type(r) is dict else None),
+            f"typing.Optional[{tname}]": (typing.Optional[t], lambda x: x, lambda r: [] if r is None else [r]),
+            f"tuple[{tname}, int]": (tuple[t, int], lambda x: [x, 1], lambda r: [r[0]] if type(r) is tuple and len(r) == 2 else None),
+        }
+        for expr, (T, wrap, leaves) in shapes.items():
+            for src in BYTESLIKE_INPUTS:
+                tl.clear_all()
+                x = wrap(eval(src))  # noqa: S307
+                col.ev()
+                col.nt(f"byteslike|{expr}|{src}")
+                k, r = tl.call(tl.unmarshal, T, x)
+                if k == "exc":
+                    col.label("outcome:raised")
+                    continue
+                col.label("outcome:returned")
+                ls = leaves(r)
+                bad = "wrong container" if ls is None else next((f"{v!r} is {type(v).__name__}, not {tname}" for v in ls if not isinstance(v, t)), None)
+                if bad:
+                    col.violation("conforms", {"byteslike": True, "T": expr, "input": src},
+                                  f"unmarshal({expr}, {src} in that shape) returned {r!r:.100}: {bad}", bucket=f"byteslike|{tname}|{type(eval(src)).__name__}")  # noqa: S307
+    col.exhaustive_done = True
+
+
 def per_program(p):
     try:
         vs = U.values(p.spec, p.mat, max_elems=3)
@@ -73,15 +108,22 @@ def plan(tier, seed):
     shards = [{"seed": seed * 1000 + k, "n": n, "depth": depth, "adversarial": k % 2 == 1} for k in range(16)]
     # one parameterised generic met twice in one annotation (nested first / bare first)
     shards += [{"seed": seed * 1000 + 70 + k, "n": n, "depth": 3, "repeated": True} for k in range(2)]
+    shards.append({"kind": "byteslike"})
     return shards
 
 
 def run_shard(shard, col):
+    if shard.get("kind") == "byteslike":
+        check_byteslike(col)
+        return
     progs.drive_programs(col, seed=shard["seed"], n=shard["n"],
                          spec_strategy=U.repeated_generic_specs() if shard.get("repeated") else U.root_specs(max_depth=shard["depth"], mods=3 if shard.get("adversarial") else 2, adversarial=bool(shard.get("adversarial"))), per_program=per_program)
 
 
 def replay(clause, case, col):
+    if case.get("byteslike"):
+        check_byteslike(col)
+        return
     progs.replay_program(case, col, lambda p: check_input(p, case["input"], "replay", col))
 
 
